@@ -2,7 +2,7 @@
     Statements only. The chain-level theorem holds for operands of ANY type (atoms, applications,
     parenthesised expressions, not-terms: whatever parseTerm returns). *)
 From Coq Require Import List Arith.
-From FoVerif Require Import Front.BinOp Front.BinOpProofs.
+From FoVerif Require Import Front.BinOp Front.BinOpProofs Front.BinOpTokens.
 Import ListNotations.
 
 (** For every chain a0 o1 a1 … on ak of any length: climbing (with the fuel the model uses — never
@@ -34,8 +34,7 @@ Example C08_published_table :
 Proof. reflexivity. Qed.
 
 (** token level (model of parseExprWithPrec/parseTerm/parseAtomList/parseAtom): concrete instances of
-    the remaining clauses of the property; the general token-level statement is validated by the
-    exhaustive correspondence, not proved (see DESIGN.md) *)
+    the remaining clauses of the property; the general statements follow below *)
 Example C08_parens_preserved :   (* (a + b) * c *)
   parse_tokens [TLParen; TId 0; TOp PLUS; TId 1; TRParen; TOp ASTER; TId 2]
   = POk (EBin ASTER (EBin PLUS (EAtom 0) (EAtom 1)) (EAtom 2)) [].
@@ -51,4 +50,108 @@ Proof. vm_compute. reflexivity. Qed.
 Example C08_newline_before_operator_irrelevant :
   parse_tokens [TId 0; TEOL; TOp PIPE; TId 1; TEOL; TEOL; TOp PIPE; TId 2]
   = parse_tokens [TId 0; TOp PIPE; TId 1; TOp PIPE; TId 2].
+Proof. vm_compute. reflexivity. Qed.
+
+(** ---------------------------------------------------------------- token level, general statements
+    Surface syntax (Front/BinOpTokens.v): an expression is a term followed by (newlines, operator,
+    term)*; a term is [not] term or an application atom atom*; an atom is an identifier/literal, a
+    parenthesised expression or (). [flat_expr] is its token string, [wf_expr] requires the head of an
+    application with arguments to be an identifier, and [den_expr] groups the terms of every chain
+    with the chain-level [parse_chain] of C08_grouping_is_table_driven (parenthesised expressions,
+    applications and not-terms are single operands). *)
+
+(** On the token string of every well-formed expression, followed by any continuation that does not
+    continue the expression (nothing, a closing parenthesis or another terminator, possibly after
+    newlines), the transcription of parseExprWithPrec returns exactly the denotation and the
+    continuation, for every fuel >= 3 * (number of tokens) + 2. *)
+Theorem C08_parse_tokens_is_table_driven :
+  forall e, wf_expr e ->
+  forall k, stops k ->
+  forall fuel, fuel >= 3 * List.length (flat_expr e) + 2 ->
+  parse_expr fuel 1 (flat_expr e ++ k) = POk (den_expr e) k.
+Proof. exact parse_expr_flatten. Qed.
+Print Assumptions C08_parse_tokens_is_table_driven.
+
+(** parse_tokens (built-in fuel 6 * length + 8) never runs out of fuel and never errs on such input *)
+Theorem C08_parse_tokens_flatten :
+  forall e, wf_expr e -> parse_tokens (flat_expr e) = POk (den_expr e) [].
+Proof. exact parse_tokens_flatten. Qed.
+Print Assumptions C08_parse_tokens_flatten.
+
+Theorem C08_parse_tokens_flatten_terminated :
+  forall e n, wf_expr e -> parse_tokens (flat_expr e ++ [TEnd n]) = POk (den_expr e) [TEnd n].
+Proof. exact parse_tokens_flatten_end. Qed.
+Print Assumptions C08_parse_tokens_flatten_terminated.
+
+(** ... and that denotation is, at EVERY nesting level, the unique tree well-grouped by the published
+    table over the denotations of that level's terms *)
+Theorem C08_denotation_is_table_driven :
+  forall t r, exists tr : tree expr,
+    den_expr (SE t r) = te tr /\ wg tr /\ first_atom tr = den_term t /\ tail_chain tr = den_rest r /\
+    forall t', wg t' -> first_atom t' = den_term t -> tail_chain t' = den_rest r -> t' = tr.
+Proof. exact den_expr_table_driven. Qed.
+Print Assumptions C08_denotation_is_table_driven.
+
+(** the denotation never takes the default branch of [chain_tree] *)
+Theorem C08_chain_tree_total :
+  forall a0 r, parse_chain a0 r = Some (chain_tree a0 r).
+Proof. exact chain_tree_some. Qed.
+Print Assumptions C08_chain_tree_total.
+
+(** explicit parentheses are preserved: ( e ) followed by any chain is parsed to a well-grouped tree
+    whose first operand is the whole denotation of e *)
+Theorem C08_parens_preserved_general :
+  forall e r, wf_expr e -> wf_rest r ->
+  exists tr : tree expr,
+    parse_tokens (flat_expr (SE (STApp (SAParen e) ANil) r)) = POk (te tr) [] /\
+    wg tr /\ first_atom tr = den_expr e /\ tail_chain tr = den_rest r.
+Proof. exact parens_preserved. Qed.
+Print Assumptions C08_parens_preserved_general.
+
+Theorem C08_parens_preserved_right :
+  forall t n o e, wf_term t -> wf_expr e ->
+  parse_tokens (flat_expr (SE t (SCons n o (STApp (SAParen e) ANil) SNil)))
+  = POk (EBin o (den_term t) (den_expr e)) [].
+Proof. exact parens_preserved_right. Qed.
+Print Assumptions C08_parens_preserved_right.
+
+(** application binds tighter than every operator:  f a args.. o g b args'..  *)
+Theorem C08_application_binds_tighter_general :
+  forall f a args g b args' n o,
+  wf_atom a -> wf_args args -> wf_atom b -> wf_args args' ->
+  parse_tokens (flat_expr (SE (STApp (SAId f) (ACons a args))
+                              (SCons n o (STApp (SAId g) (ACons b args')) SNil)))
+  = POk (EBin o (EApp (EAtom f) (den_atom a :: den_args args))
+                (EApp (EAtom g) (den_atom b :: den_args args'))) [].
+Proof. exact application_binds_tighter. Qed.
+Print Assumptions C08_application_binds_tighter_general.
+
+(** not applies to the following application:  not f a args.. o t  *)
+Theorem C08_not_takes_following_application_general :
+  forall f a args n o t, wf_atom a -> wf_args args -> wf_term t ->
+  parse_tokens (flat_expr (SE (STNot (STApp (SAId f) (ACons a args))) (SCons n o t SNil)))
+  = POk (EBin o (ENot (EApp (EAtom f) (den_atom a :: den_args args))) (den_term t)) [].
+Proof. exact not_takes_following_application. Qed.
+Print Assumptions C08_not_takes_following_application_general.
+
+(** newlines before an operator are irrelevant, at any nesting level: removing every TEOL from the
+    token string does not change the result *)
+Theorem C08_newline_before_operator_irrelevant_general :
+  forall e, wf_expr e -> parse_tokens (strip_eol (flat_expr e)) = parse_tokens (flat_expr e).
+Proof. exact newline_before_operator_irrelevant. Qed.
+Print Assumptions C08_newline_before_operator_irrelevant_general.
+
+(** non-vacuity:  ( a EOL EOL + b ) EOL * not f ()   *)
+Example C08_surface_example :
+  let e := SE (STApp (SAParen (SE (STApp (SAId 0) ANil) (SCons 2 PLUS (STApp (SAId 1) ANil) SNil))) ANil)
+              (SCons 1 ASTER (STNot (STApp (SAId 2) (ACons SAUnit ANil))) SNil) in
+  flat_expr e = [TLParen; TId 0; TEOL; TEOL; TOp PLUS; TId 1; TRParen; TEOL; TOp ASTER; TNot; TId 2;
+                 TLParen; TRParen]
+  /\ den_expr e = EBin ASTER (EBin PLUS (EAtom 0) (EAtom 1)) (ENot (EApp (EAtom 2) [EUnit]))
+  /\ parse_tokens (flat_expr e) = POk (den_expr e) [].
+Proof. vm_compute. repeat split. Qed.
+
+(** the well-formedness side condition is needed: ( ) x  is rejected ("Funcall head is not var") *)
+Example C08_wf_needed :
+  parse_tokens (flat_expr (SE (STApp SAUnit (ACons (SAId 0) ANil)) SNil)) = PErr.
 Proof. vm_compute. reflexivity. Qed.
